@@ -456,11 +456,20 @@ pub fn c07(h: &Hist, s: u8, v: &mut Verdicts) {
     let mut cur_a = 0u32;
     let mut done: HashSet<u32> = HashSet::new();
     let mut last_phase: (u32, i64) = (0, -1);
-    let mut sub_order: Vec<u32> = Vec::new(); // registration order proxy: order of AddRet
-    for e in h.evs.iter().filter(|e| e.k == K::AddRet && e.r == REG_SUB && e.store == s) {
-        sub_order.push(e.idx);
+    // registration intervals of subscribers: (AddInv, AddRet)
+    let mut reg_iv: HashMap<u32, (u64, u64)> = HashMap::new();
+    for e in h.evs.iter().filter(|e| e.r == REG_SUB && (e.store == s || e.store == 255)) {
+        match e.k {
+            K::AddInv => {
+                reg_iv.entry(e.idx).or_insert((e.seq, INF)).0 = e.seq;
+            }
+            K::AddRet => {
+                reg_iv.entry(e.idx).or_insert((0, e.seq)).1 = e.seq;
+            }
+            _ => {}
+        }
     }
-    let sub_pos = |id: u32| -> i64 { sub_order.iter().position(|x| *x == id).map(|p| p as i64).unwrap_or(id as i64) };
+    let mut subs_in_action: Vec<u32> = Vec::new();
     let mut callbacks = 0u64;
     for &i in &sh.rc {
         let e = &h.evs[i];
@@ -484,12 +493,27 @@ pub fn c07(h: &Hist, s: u8, v: &mut Verdicts) {
                     }
                     cur_a = e.a;
                     last_phase = (0, -1);
+                    subs_in_action.clear();
                 }
                 let (ph, idx) = phase_of(e);
-                let idx = if ph == 4 { sub_pos(idx) } else { idx as i64 };
+                if ph == 4 {
+                    // subscribers: n2 called after n1 although n2's registration had returned before
+                    // n1's was even invoked
+                    if let Some((_, ret2)) = reg_iv.get(&idx) {
+                        for n1 in &subs_in_action {
+                            if let Some((inv1, _)) = reg_iv.get(n1) {
+                                if *ret2 < *inv1 {
+                                    v.fail("C07", format!("store {}: action {}: subscriber {} (registered first) was called after subscriber {} (registered later) - not in registration order (seq {})", s, id_str(e.a), idx, n1, e.seq));
+                                }
+                            }
+                        }
+                    }
+                    subs_in_action.push(idx);
+                }
+                let idx = if ph == 4 { -1 } else { idx as i64 };
                 if ph < last_phase.0 {
                     v.fail("C07", format!("store {}: action {}: {} ran after {} (seq {})", s, id_str(e.a), PH_NAMES[ph as usize], PH_NAMES[last_phase.0 as usize], e.seq));
-                } else if ph == last_phase.0 && idx <= last_phase.1 {
+                } else if ph == last_phase.0 && ph != 4 && idx <= last_phase.1 {
                     v.fail("C07", format!("store {}: action {}: {} components ran out of registration order ({} after {}, seq {})", s, id_str(e.a), PH_NAMES[ph as usize], idx, last_phase.1, e.seq));
                 }
                 last_phase = (ph, idx);
@@ -562,7 +586,8 @@ pub fn c07(h: &Hist, s: u8, v: &mut Verdicts) {
     v.count("c07.reducer_context_threads", sh.rc_tids.len() as u64);
     let tids: HashSet<u32> = sh.taken.iter().filter_map(|a| h.disp.get(a)).map(|d| d.tid).collect();
     let phases: HashSet<u32> = sh.rc.iter().map(|&i| &h.evs[i]).filter(|e| matches!(e.k, K::RBeg | K::MBeg | K::SBeg)).map(|e| phase_of(e).0).collect();
-    if tids.len() >= 2 && phases.len() >= 2 && late_reg_then_dispatch > 0 {
+    let unsubscribed_midrun = h.evs.iter().any(|e| e.k == K::UInv && e.store == s);
+    if tids.len() >= 2 && phases.len() >= 2 && (late_reg_then_dispatch > 0 || unsubscribed_midrun) {
         v.nontrivial.insert("C07");
     }
 }
